@@ -45,7 +45,8 @@ Plans == <<
   << W(3, TRUE), W(4, FALSE) >>,
   << W(5000, FALSE) >>,
   << W(5000, TRUE), W(3, TRUE), W(70000, FALSE) >>,
-  << W(0, TRUE), W(3, FALSE) >> >>
+  << W(0, TRUE), W(3, FALSE) >>,
+  << W(0, FALSE) >> >>
 
 VARIABLES script, expect, done
 vars == <<script, expect, done>>
@@ -77,7 +78,11 @@ Expected(s) ==
     \* names that must not be seen at all
     banned   |-> {"connection", "keep-alive", "proxy-connection", "transfer-encoding", "upgrade"},
     \* fields the server may add on its own
-    auto     |-> {"content-type", "content-length", "date", "trailer"},
+    \* (a declared trailer whose value the handler set before the header block went out -
+    \* no WriteHeader, no Write, no Flush before - is a header field of the handler as well)
+    auto     |-> {"content-type", "content-length", "date", "trailer"}
+                 \cup (IF s.trailers = "declared" /\ s.status = 0 /\ Plans[s.plan] = <<>>
+                       THEN {"x-t1"} ELSE {}),
     body     |-> IF BodyAllowed(s) THEN SumPlan(Plans[s.plan]) ELSE 0,
     trailers |-> IF ~BodyAllowed(s) \/ s.trailers = "none" THEN <<>>
                  ELSE IF s.trailers = "declared" THEN <<[name |-> "x-t1", val |-> "v1"]>>
@@ -86,11 +91,12 @@ Expected(s) ==
 
 Init == script \in Scripts /\ expect = <<>> /\ done = FALSE
 \* exact Content-Length only makes sense when the handler writes a body it is allowed to send
-\* trailers are judged only after a non-empty body: with an empty body and no WriteHeader the
-\* trailer value is set before the header snapshot (it then is a header as well), and the
-\* undeclared "Trailer:" prefix form is outside the property (declared trailers)
+\* Declared trailers are judged whatever the body is (also empty, also without any flush).
+\* The undeclared "Trailer:" prefix form is outside the property (declared trailers) and only
+\* exercised after a non-empty body; trailers of body-less responses are not judged.
 Sensible(s) == /\ (s.cl = "exact" => BodyAllowed(s) /\ s.trailers = "none")
-               /\ (s.trailers # "none" => BodyAllowed(s) /\ SumPlan(Plans[s.plan]) > 0)
+               /\ (s.trailers # "none" => BodyAllowed(s))
+               /\ (s.trailers = "prefix" => SumPlan(Plans[s.plan]) > 0)
 Next == ~done /\ done' = TRUE /\ expect' = Expected(script) /\ UNCHANGED script
 Spec == Init /\ [][Next]_vars
 
